@@ -123,15 +123,16 @@ template<class C, class T> struct Table {
 		if (op == "asg" && n == 4) { int g = slot(t[3]); if (!H[h] || !H[g]) return "skip"; *H[h] = *H[g]; return "ok"; }
 		if (!H[h]) {
 			// every other op works through slot h (for the producing ops h is t[3], tested below)
-			if (!(op == "slice" || op == "clone" || op == "concat" || op == "rev" || op == "filt")) return known(op, n) ? "skip" : "bad-op";
+			if (!(op == "slice" || op == "slicee" || op == "clone" || op == "concat" || op == "rev" || op == "filt")) return known(op, n) ? "skip" : "bad-op";
 		}
-		if (op == "slice" || op == "clone" || op == "concat" || op == "rev" || op == "filt") {
+		if (op == "slice" || op == "slicee" || op == "clone" || op == "concat" || op == "rev" || op == "filt") {
 			if (n < 4) return "bad-op";
 			int s = slot(t[3]);
 			if (!H[s]) return "skip";
 			C& a = *H[s];
 			int len = a.length();
 			if (op == "slice" && n == 6) { int i1 = (int)(num(t[4]) % (len + 1)); int i2 = i1 + (int)(num(t[5]) % (len - i1 + 1)); Array<T> r = a.slice(i1, i2); store(h, r); return "ok"; }
+			if (op == "slicee" && n == 5) { int i1 = (int)(num(t[4]) % (len + 1)); Array<T> r = a.slice(i1); store(h, r); return "ok"; }
 			if (op == "clone" && n == 4) { Array<T> r = a.clone(); store(h, r); return "ok"; }
 			if (op == "rev" && n == 4) { Array<T> r = a.reversed(); store(h, r); return "ok"; }
 			if (op == "filt" && n == 6) { Array<T> r = a.filter(Pred<T>(num(t[4]), num(t[5]))); store(h, r); return "ok"; }
@@ -182,6 +183,7 @@ template<class C, class T> struct Table {
 			if (half > 0) { typename Array<T>::Enumerator e = a.slice_(half); if (e.length() != len - half) return "err slice_-length";
 				for (; e; ++e) h5 = (h5 * 131 + code(*e)) % 1000000007; }
 			else h5 = want;
+			if (a.slice_(0, 0).length() != 0 || a.slice_(0).length() != len) return "err slice_-empty-range";
 			if (h1 != want || h2 != want || h3 != want || h4 != want || h5 != want || c3 != len) return "err enumeration-mismatch";
 			return "ok";
 		}
